@@ -4,6 +4,7 @@ import (
 	"fmt"
 	"os"
 	"strconv"
+	"strings"
 	"time"
 
 	"github.com/frankkopp/FrankyGo/internal/config"
@@ -140,6 +141,59 @@ func c05Monitor(args []string) int {
 			positions = append(positions, GamePos{Root: positions[k].Root, Moves: positions[k].Moves, P: &cp})
 		}
 	}
+	// twin positions: the same placement with and without a pending en-passant right (or with one castling
+	// right less), searched one after the other on one engine with the hash table on: what the first search
+	// left in the table must not surface as an impossible move in the second
+	twin := map[int]int{} // 1 = first of a pair (fresh engine), 2 = second (same engine, nothing cleared)
+	{
+		var cands []GamePos
+		perFile := map[string]int{}
+		w.Stream(n*40, true, func(g GamePos) {
+			if len(cands) >= 8*(2+n/80) {
+				return
+			}
+			cp := *g.P
+			for _, m := range w.legalMoves(&cp) {
+				if g.P.GetPiece(m.From()).TypeOf() == Pawn && SquareDistance(m.From(), m.To()) == 2 && m.From().FileOf() == m.To().FileOf() {
+					q := *g.P
+					q.DoMove(m)
+					if fl := f3file(q.StringFen()); fl != "-" && perFile[fl] < 2+n/80 {
+						perFile[fl]++
+						mv := append(append([]Move{}, g.Moves...), m)
+						cands = append(cands, GamePos{Root: g.Root, Moves: mv, P: &q})
+						break
+					}
+				}
+			}
+		})
+		for _, c := range cands {
+			// first search: the position BEFORE the double step (the en-passant position is a node of the tree and
+			// gets a hash entry); second search: the same position with that pawn one square ahead, from which the
+			// single step reaches the same placement without the en-passant right
+			m := c.Moves[len(c.Moves)-1]
+			before, _ := position.NewPositionFen(c.Root)
+			for _, x := range c.Moves[:len(c.Moves)-1] {
+				before.DoMove(x)
+			}
+			mid := Square((int(m.From()) + int(m.To())) / 2)
+			bf := strings.Fields(before.StringFen())
+			board := expandFenBoard(bf[0])
+			pc := board[m.From()]
+			board[m.From()], board[mid] = ' ', pc
+			bf[0] = compressFenBoard(board)
+			bf[3] = "-"
+			tf := strings.Join(bf, " ")
+			tp, err := position.NewPositionFen(tf)
+			if err != nil || tp == nil || tp.IsAttacked(tp.KingSquare(tp.NextPlayer().Flip()), tp.NextPlayer()) {
+				continue
+			}
+			twin[len(positions)] = 1
+			positions = append(positions, GamePos{Root: c.Root, Moves: c.Moves[:len(c.Moves)-1], P: before})
+			twin[len(positions)] = 2
+			positions = append(positions, GamePos{Root: tf, P: tp})
+			rep.Stats["twin_pairs_en_passant_file_"+f3file(c.P.StringFen())]++
+		}
+	}
 	var s *search.Search
 	var d *captureDriver
 	for i, g := range positions {
@@ -152,7 +206,7 @@ func c05Monitor(args []string) int {
 		if len(legal) == 0 {
 			continue
 		}
-		if s == nil || rng.Chance(25) { // mostly keep the search object: hash and history are shared between searches
+		if s == nil || (rng.Chance(25) && twin[i] != 2) || twin[i] == 1 { // mostly keep the search object: hash and history are shared between searches
 			s = search.NewSearch()
 		}
 		d = &captureDriver{}
@@ -218,6 +272,16 @@ func c05Monitor(args []string) int {
 			sl.Nodes = fn
 			stopAfter, ponderhit = -1, false
 			mode = fmt.Sprintf("nodes %d", fn)
+		}
+		if tw := twin[i]; tw > 0 {
+			restoreDefaults()
+			config.Settings.Search.UseBook = false
+			config.Settings.Search.TTSize = 2
+			cfgs = "default"
+			*sl = *search.NewSearchLimits()
+			sl.Depth = 5 + rng.Intn(2)
+			stopAfter, ponderhit = -1, false
+			mode = fmt.Sprintf("depth %d (twin %d of a pair, same engine)", sl.Depth, tw)
 		}
 		in := map[string]interface{}{"root": g.Root, "moves": movesUci(g.Moves), "fen": p.StringFen(), "limits": mode, "config": cfgs, "search_index": i}
 		setCurrent(in)
@@ -315,6 +379,62 @@ func c05Monitor(args []string) int {
 // c07-monitor <n> <seed>: every node the search classifies as mate/stalemate really has no legal
 // move (hook in alphabeta.go), under the default configuration and random pruning switches;
 // terminal roots are reported as -mate / draw.
+// expandFenBoard / compressFenBoard: the placement field of a FEN as 64 bytes indexed by square (a1 = 0)
+func expandFenBoard(pl string) [64]byte {
+	var b [64]byte
+	for i := range b {
+		b[i] = ' '
+	}
+	r, f := 7, 0
+	for _, c := range pl {
+		switch {
+		case c == '/':
+			r, f = r-1, 0
+		case c >= '1' && c <= '8':
+			f += int(c - '0')
+		default:
+			if r >= 0 && f < 8 {
+				b[r*8+f] = byte(c)
+			}
+			f++
+		}
+	}
+	return b
+}
+
+func compressFenBoard(b [64]byte) string {
+	var sb strings.Builder
+	for r := 7; r >= 0; r-- {
+		e := 0
+		for f := 0; f < 8; f++ {
+			if c := b[r*8+f]; c != ' ' {
+				if e > 0 {
+					sb.WriteString(strconv.Itoa(e))
+					e = 0
+				}
+				sb.WriteByte(c)
+			} else {
+				e++
+			}
+		}
+		if e > 0 {
+			sb.WriteString(strconv.Itoa(e))
+		}
+		if r > 0 {
+			sb.WriteByte('/')
+		}
+	}
+	return sb.String()
+}
+
+func f3file(fen string) string {
+	f := strings.Fields(fen)
+	if len(f) > 3 && len(f[3]) > 0 {
+		return f[3][:1]
+	}
+	return "-"
+}
+
 func c07Monitor(args []string) int {
 	n, _ := strconv.Atoi(args[0])
 	seed, _ := strconv.ParseUint(args[1], 10, 64)
